@@ -324,6 +324,42 @@ pub fn run(args: &[&str]) -> String {
         _ => "ok\t#FAIL:encode-decode-roundtrip:".into(),
       }
     }
+    // a large list filled pseudo-randomly at a given density (poorly compressible), written through `set`, encoded,
+    // decoded and compared: entry count, equality, and every entry read back
+    Some("dense") => {
+      let (Some(n), Some(sd), Some(den)) = (args.get(1).and_then(|x| x.parse::<usize>().ok()), args.get(2).and_then(|x| x.parse::<u64>().ok()), args.get(3).and_then(|x| x.parse::<u64>().ok())) else {
+        return "bad-request".into();
+      };
+      let Ok(mut l) = StatusList2021::new(n) else { return "size".into() };
+      let mut r = Rng::new(sd);
+      let mut want = vec![false; l.len()];
+      for (i, w) in want.iter_mut().enumerate() {
+        if r.below(256) < den {
+          *w = true;
+          if l.set(i, true).is_err() {
+            return "ok\t#FAIL:encode-decode-roundtrip:set refused an index below len".into();
+          }
+        }
+      }
+      let enc = l.clone().into_encoded_str();
+      match StatusList2021::try_from_encoded_str(&enc) {
+        Ok(l2) => {
+          if l2.len() != want.len() {
+            return format!("ok\t#FAIL:encode-decode-roundtrip:a list of {} entries decodes from its own encoding with {} entries", want.len(), l2.len());
+          }
+          if l2 != l {
+            return "ok\t#FAIL:encode-decode-roundtrip:the decoded list differs".into();
+          }
+          for (i, w) in want.iter().enumerate() {
+            if l2.get(i).ok() != Some(*w) {
+              return format!("ok\t#FAIL:encode-decode-roundtrip:entry {} reads {:?} after the round trip, written {}", i, l2.get(i).ok(), w);
+            }
+          }
+          "ok".into()
+        }
+        Err(_) => "ok\t#FAIL:encode-decode-roundtrip:the list's own encoding does not decode".into(),
+      }
+    }
     _ => "bad-request".into(),
   }
 }
@@ -430,5 +466,10 @@ pub fn gen(thorough: bool, seed: u64, out: &mut impl Write) {
         }
       }
     }
+  }
+  // large dense lists (the encoder's buffers are exceeded only by big, poorly compressible lists)
+  let dense: &[(usize, u64)] = if thorough { &[(131072, 85), (131072, 128), (262144, 85), (524288, 85), (1 << 20, 40), (1 << 20, 85), (1 << 20, 128), (1 << 20, 250), (1 << 21, 85), (1 << 22, 128)] } else { &[(131072, 128), (524288, 85), (1 << 20, 85), (1 << 20, 128)] };
+  for (n, den) in dense {
+    writeln!(out, "C12 dense {} {} {}", n, r.below(1 << 30), den).unwrap();
   }
 }
